@@ -1,4 +1,5 @@
 """C18 — gwb-grid writes the requested mesh and the library's values at its nodes."""
+import math
 import json, math, os, random, re, shutil, subprocess
 from common import *
 import build_repo
@@ -60,17 +61,44 @@ def cases_for(seed, tier, n):
     wdir = proto.workdir("C18")
     bdir = build_repo.build("apps")
     bin_ = os.path.join(bdir, "bin", "gwb-grid")
-    cart = gen_worlds(rng, wdir, "c", max(2, n // 3), {"with_random": False, "with_lines": True, "max_features": 4, "spherical": False})
-    sph = gen_worlds(rng, wdir, "s", max(2, n // 3), {"with_random": False, "with_lines": True, "max_features": 3, "spherical": True})
+    cart = gen_worlds(rng, wdir, "c", max(4, n // 2), {"with_random": False, "with_lines": True, "max_features": 4, "spherical": False})
+    sph = gen_worlds(rng, wdir, "s", max(4, n // 2), {"with_random": False, "with_lines": True, "max_features": 4, "spherical": True})
     out = []
     combos = [("cartesian", 2), ("cartesian", 3), ("chunk", 2), ("chunk", 3), ("annulus", 2)]
     for k in range(n):
         gtype, dim = combos[k % len(combos)]
-        path, w, g = rng.choice(cart if gtype == "cartesian" else sph)
+        pool = cart if gtype == "cartesian" else sph
+        withf = [x for x in pool if len(x[1].get("features", [])) >= 2] or pool
+        path, w, g = rng.choice(withf if k % 5 != 2 else pool)
         w = dict(w)
         if dim == 2 and "cross section" not in w:
             w["cross section"] = [[0, 0], [100e3, 0]] if gtype == "cartesian" else [[0, 0], [10, 0]]
         opts = rand_grid(rng, gtype, dim)
+        if k % 5 != 2 and w.get("features"):
+            # aim the grid at the features, so that nodes carry tags and the filtered / by-tag outputs are not empty
+            xs = [p[0] for f in w["features"] for p in f["coordinates"]]
+            ys = [p[1] for f in w["features"] for p in f["coordinates"]]
+            radius = w.get("coordinate system", {}).get("radius", 6371000.0)
+            n = lambda: rng.choice([2, 3, 4, 5, 6])
+            if gtype == "cartesian":
+                mx, my = 0.1 * (max(xs) - min(xs)) + 20e3, 0.1 * (max(ys) - min(ys)) + 20e3
+                if dim == 3:
+                    opts = {"x_min": min(xs) - mx, "x_max": max(xs) + mx, "y_min": min(ys) - my, "y_max": max(ys) + my, "z_min": 1000e3 - rng.choice([300e3, 600e3]), "z_max": 1000e3,
+                            "n_cell_x": n(), "n_cell_y": n(), "n_cell_z": n()}
+                else:
+                    w["cross section"] = [[min(xs) - mx, min(ys) - my], [max(xs) + mx, max(ys) + my]]
+                    opts = {"x_min": 0, "x_max": math.hypot(max(xs) - min(xs) + 2 * mx, max(ys) - min(ys) + 2 * my), "z_min": 1000e3 - rng.choice([300e3, 600e3]), "z_max": 1000e3,
+                            "n_cell_x": n() + 2, "n_cell_z": n()}
+            elif gtype == "chunk":
+                if dim == 3:
+                    opts = {"x_min": max(-359, min(xs) - 2), "x_max": min(359, max(xs) + 2), "y_min": max(-89, min(ys) - 2), "y_max": min(89, max(ys) + 2),
+                            "z_min": radius - rng.choice([300e3, 600e3]), "z_max": radius, "n_cell_x": n(), "n_cell_y": n(), "n_cell_z": n()}
+                else:
+                    w["cross section"] = [[min(xs), min(ys)], [max(xs), max(ys) if max(ys) != min(ys) or max(xs) != min(xs) else max(ys) + 1]]
+                    opts = {"x_min": 0, "x_max": 40, "y_min": 0, "y_max": 0, "z_min": radius - rng.choice([300e3, 600e3]), "z_max": radius, "n_cell_x": n() + 3, "n_cell_z": n()}
+            else:
+                w["cross section"] = [[min(xs), min(ys)], [max(xs), max(ys) if max(ys) != min(ys) or max(xs) != min(xs) else max(ys) + 1]]
+                opts = {"x_min": 0, "x_max": 0, "z_min": radius - rng.choice([300e3, 600e3]), "z_max": radius, "n_cell_x": n() + 4, "n_cell_z": rng.choice([2, 3])}
         comps = rng.choice([0, 1, 3])
         out.append((bin_, os.path.join(wdir, "run_%d" % k), w, g, gtype, dim, opts, comps))
     return out
